@@ -30,8 +30,12 @@ func VerifC10_Coupling() {
 	for k := 0; k < 4; k++ {
 		ok := verifChooseK("check."+string(rune('0'+k)), 2) == 1
 		stopsBefore, startsBefore := vGet(w.stops, "p"), vGet(w.starts, "p")
+		aliveBefore := vGet(w.alive, "p")
 		if !vProbeCheck("p_ready_probe", ok) {
-			break // the prober is not running any more (process ended)
+			// the prober is not running: legitimate only when the process has ended; every
+			// incarnation of the command - also one relaunched by the policy - is probed
+			verifAssert("probe.runs.while.the.command.is.alive", aliveBefore == 0)
+			break
 		}
 		verifQuiesce()
 		if ok {
